@@ -10,5 +10,10 @@ def diagOp (op : String) (a : Array Float) : Option (List Float) :=
       match pixelOf s (g a 7) (g a 8) with
       | some (r, c) => some [r.toFloat, c.toFloat, s.effH.toFloat, s.effW.toFloat]
       | none => some [-1.0, -1.0, s.effH.toFloat, s.effW.toFloat]
+  | "hist" =>    -- W H binning pxW pxH dx dy n | n*(x y w)  ->  image row-major (effH*effW values), then histTotal
+      let s : ScreenP Float := ⟨(g a 0).toUInt64.toNat, (g a 1).toUInt64.toNat, (g a 2).toUInt64.toNat, g a 3, g a 4, g a 5, g a 6⟩
+      let n := (g a 7).toUInt64.toNat
+      let pts := (List.range n).map fun i => (g a (8 + 3*i), g a (9 + 3*i), g a (10 + 3*i))
+      some (((List.range s.effH).flatMap fun r => (List.range s.effW).map fun c => histImage s pts r c) ++ [histTotal s pts])
   | _ => none
 end DrvG
